@@ -23,6 +23,7 @@ INVARIANT GravityFallsOff
 INVARIANT StepRelation
 INVARIANT StepRelationAnyUnit
 INVARIANT MixAlignedWithLayers
+INVARIANT EvaluationKeepsStructure
 INVARIANT DensityIdealGas
 INVARIANT OneEntryPerLayer
 INVARIANT FitsInv
